@@ -19,6 +19,13 @@ from .sym import CheckerError
 from . import native as N
 
 
+def make_lib(C):
+    if C.libname == "obs":
+        from .lib_obs import ObsLib
+        return ObsLib()
+    return Lib()
+
+
 def load_contracts(modules):
     for m in modules:
         importlib.import_module(m)
@@ -145,7 +152,7 @@ def main():
         C = REGISTRY[task["contract"]]
         case = task["case"]
         reg = SourceRegistry()
-        lib = Lib()
+        lib = make_lib(C)
         mod, fnode = reg.function(C.target, C.locate)
         out["function"] = mod.describe(fnode, C.target.split("::", 1)[1])
         out["function"]["slice"] = C.slice_note
